@@ -27,6 +27,7 @@ def acPacket : Acct := 2
 def acAgent : Acct := 3
 def acExecute : Acct := 4
 def acRelayer : Acct := 5
+def acForwarder : Acct := 10   -- a batching contract: one transaction, several `crossChainCall`s
 
 def upd1 {α} (f : Nat → α) (k : Nat) (v : α) : Nat → α := fun x => if x = k then v else f x
 def upd2 {α} (f : Nat → Nat → α) (a b : Nat) (v : α) : Nat → Nat → α :=
@@ -171,7 +172,7 @@ def sendEvm (cfg : Cfg) (self : ChainId) (seq : Nat) (e : Evm) (sender : Acct) (
 
 /-- Post-transaction hook of the packet keeper: `Keeper.SendPacket` for the `PacketSent` event. -/
 def sendKeeper (cfg : Cfg) (c : Chain) (p : Packet) : Option Chain :=
-  if cfg.clients p.dst then
+  if cfg.clients p.dst ∧ p.seq = c.nextSeq p.dst then        -- client exists; packet sequence = next send sequence
     some { c with nextSeq := upd1 c.nextSeq p.dst (p.seq + 1), commits := p :: c.commits }
   else none
 
@@ -182,6 +183,51 @@ def send (cfg : Cfg) (self : ChainId) (c : Chain) (sender : Acct) (a : SendArgs)
   match sendEvm cfg self (c.nextSeq a.dst) c.evm sender a with
   | none => none
   | some (e, p) => sendKeeper cfg { c with evm := e } p
+
+/-- One call frame of a batching (forwarder) contract. -/
+inductive Leg
+  | approve (t : Token) (n : Nat)      -- token.approve(endpoint, n) by the forwarder
+  | send (a : SendArgs)                -- endpoint.crossChainCall{value}(a) by the forwarder
+  deriving Repr
+
+/-- native coin a leg needs as `msg.value` -/
+def Leg.value : Leg → Nat
+  | .approve _ _ => 0
+  | .send a => (if a.token = 0 then a.amount else 0) + (if a.feeToken = 0 then a.feeAmount else 0)
+
+/-- EVM part of a batch: the frames run in order on ONE EVM state and every `crossChainCall` reads the same
+`getNextSequenceSend` (`seq0`): the keeper's hook runs only after the EVM has finished. `strict`: a failing frame
+reverts the whole transaction; otherwise only that frame's own changes are reverted. Returns the `PacketSent` events. -/
+def batchEvm (cfg : Cfg) (self : ChainId) (seq0 : ChainId → Nat) (strict : Bool) : Evm → List Leg → Option (Evm × List Packet)
+  | e, [] => some (e, [])
+  | e, .approve t n :: ls => batchEvm cfg self seq0 strict { e with allow := upd2 e.allow t acForwarder n } ls
+  | e, .send a :: ls =>
+    match sendEvm cfg self (seq0 a.dst) e acForwarder a with
+    | none => if strict then none else batchEvm cfg self seq0 strict e ls
+    | some (e1, p) =>
+      match batchEvm cfg self seq0 strict e1 ls with
+      | none => none
+      | some (e2, ps) => some (e2, p :: ps)
+
+/-- Hook part of a batch: `Hooks.PostTxProcessing` handles EVERY `PacketSent` log of the receipt, in order, and fails
+on the first `SendPacket` that fails. -/
+def batchKeeper (cfg : Cfg) : Chain → List Packet → Option Chain
+  | c, [] => some c
+  | c, p :: ps =>
+    match sendKeeper cfg c p with
+    | none => none
+    | some c1 => batchKeeper cfg c1 ps
+
+/-- One transaction of `sender` to the forwarder contract carrying the legs' native coin as value
+(`ApplyTransaction`: EVM state and ALL hooks commit together or not at all). -/
+def batch (cfg : Cfg) (self : ChainId) (c : Chain) (sender : Acct) (strict : Bool) (legs : List Leg) : Option Chain :=
+  if sender = acEndpoint ∨ sender = acPacket then none else
+  match debit c.evm 0 sender ((legs.map Leg.value).sum) with
+  | none => none
+  | some e0 =>
+    match batchEvm cfg self c.nextSeq strict (credit e0 0 acForwarder ((legs.map Leg.value).sum)) legs with
+    | none => none
+    | some (e1, ps) => batchKeeper cfg { c with evm := e1 } ps
 
 /-- The four things `CallPacket(ctx, "onRecvPacket", packet)` does. -/
 inductive Cb
@@ -353,6 +399,7 @@ inductive Step
   | mint (c : ChainId) (t : Token) (who : Acct) (n : Nat)    -- an origin token's own minter (no bridge state involved)
   | approve (c : ChainId) (t : Token) (who : Acct) (n : Nat) -- ERC-20 `approve(endpoint, n)` by an account
   | transfer (c : ChainId) (t : Token) (src dst : Acct) (n : Nat)  -- an ordinary token / coin transfer between accounts
+  | batch (c : ChainId) (sender : Acct) (strict : Bool) (legs : List Leg)   -- one transaction, several crossChainCalls
   deriving Repr
 
 /-- One step; a rejected message leaves the world unchanged. -/
@@ -391,6 +438,11 @@ def step (fixed : Bool) (w : World) : Step → World
       match debit c.evm t src n with
       | none => w
       | some e => w.set i { c with evm := credit e t dst n }
+
+  | .batch i sender strict legs =>
+    match batch (w.cfg i) i (w.chains i) sender strict legs with
+    | none => w
+    | some c => w.set i c
 
 def run (fixed : Bool) (w : World) (steps : List Step) : World := steps.foldl (step fixed) w
 
